@@ -38,6 +38,8 @@ pub enum G {
     Rep(Box<G>),
     Validate(Box<G>),
     Nested(Box<G>),
+    /// `a.recover_with(via_parser(f))`
+    Recover(Box<G>, Box<G>),
 }
 use G::*;
 
@@ -51,6 +53,8 @@ pub enum Val {
     O(Option<Box<Val>>),
     L(Vec<Val>),
     N(Box<Val>),
+    /// output of a recovery strategy
+    R(Box<Val>),
     S(usize, usize, Box<Val>),
 }
 
@@ -79,6 +83,7 @@ pub struct World {
     nested_runs: u64,
     inner_failures_surfaced: u64,
     inner_emissions_surfaced: u64,
+    recoveries: u64,
 }
 impl World {
     fn add(&mut self, new: Alt) {
@@ -262,6 +267,30 @@ fn eval0(g: &G, t: &[Sp], eoi: SimpleSpan, pos: usize, w: &mut World) -> Option<
             w.emitted.push(Alt { pos, span: sp, found: None, exp: BTreeSet::new(), custom: Some("V".into()) });
             Some((e, v))
         }
+        Recover(a, f) => {
+            // transparent on success; else the strategy's output plus ONE emission holding the then-pending
+            // primary error; else failure with that error restored
+            let n = w.emitted.len();
+            if let Some(r) = eval(a, t, eoi, pos, w) {
+                return Some(r);
+            }
+            w.emitted.truncate(n);
+            let alt = w.alt.take().expect("model: failure without a pending error");
+            match eval(f, t, eoi, pos, w) {
+                Some((e, v)) => {
+                    let mut a2 = alt;
+                    a2.pos = e;
+                    w.emitted.push(a2);
+                    w.recoveries += 1;
+                    Some((e, Val::R(Box::new(v))))
+                }
+                None => {
+                    w.alt = Some(alt);
+                    w.emitted.truncate(n);
+                    None
+                }
+            }
+        }
         Nested(inner) => match t.get(pos) {
             Some((Tok::G(ts, ieoi), _)) => {
                 // the inner grammar runs on exactly the inner token list and must match all of it; the
@@ -283,6 +312,7 @@ fn eval0(g: &G, t: &[Sp], eoi: SimpleSpan, pos: usize, w: &mut World) -> Option<
                 w.steps += iw.steps;
                 w.states += iw.states;
                 w.nested_runs += iw.nested_runs;
+                w.recoveries += iw.recoveries;
                 w.inner_emissions_surfaced += iw.emitted.len() as u64 + iw.inner_emissions_surfaced;
                 w.inner_failures_surfaced += iw.inner_failures_surfaced + if r.is_none() { 1 } else { 0 };
                 // emissions inside surface in the outer result; the inner pending error is filed just
@@ -311,7 +341,7 @@ fn is_straight_line(g: &G) -> bool {
         JA | JB | Any | End | Empty => true,
         Then(a, b) => is_straight_line(a) && is_straight_line(b),
         Validate(a) | Nested(a) => is_straight_line(a),
-        Or(..) | OrNot(_) | Rep(_) => false,
+        Or(..) | OrNot(_) | Rep(_) | Recover(..) => false,
     }
 }
 
@@ -348,6 +378,7 @@ fn build0<'a>(g: &G) -> BP<'a> {
                 v
             })
             .boxed(),
+        Recover(a, f) => build(a).recover_with(via_parser(build(f).map(|v| Val::R(Box::new(v))))).boxed(),
         Nested(inner) => build(inner)
             .map(|v| Val::N(Box::new(v)))
             .nested_in(select_ref! { Tok::G(ts, eoi) => ts.as_slice().map(*eoi, mapper as fn(&'a Sp) -> (&'a Tok, &'a SimpleSpan)) })
@@ -361,6 +392,7 @@ fn nullable(g: &G) -> bool {
         Then(a, b) => nullable(a) && nullable(b),
         Or(a, b) => nullable(a) || nullable(b),
         Validate(a) => nullable(a),
+        Recover(a, f) => nullable(a) || nullable(f),
     }
 }
 pub fn grammars(n: usize) -> Vec<G> {
@@ -380,6 +412,7 @@ pub fn grammars(n: usize) -> Vec<G> {
             for b in grammars(n - 1 - k) {
                 out.push(Then(Box::new(a.clone()), Box::new(b.clone())));
                 out.push(Or(Box::new(a.clone()), Box::new(b.clone())));
+                out.push(Recover(Box::new(a.clone()), Box::new(b.clone())));
             }
         }
     }
@@ -425,7 +458,9 @@ fn assign(ts: Vec<Tok>, ctr: &mut usize) -> Vec<Sp> {
                 *ctr += 1;
                 let end = *ctr;
                 *ctr += 1;
-                (Tok::G(inner, (ieoi..ieoi).into()), (start..end).into())
+                // the inner end-of-input span is NOT zero-width (the usual `map(e.span(), ..)` idiom hands in the
+                // whole group's span): only its end is where an empty match at the end of the inner input lies
+                (Tok::G(inner, (start + 1..ieoi).into()), (start..end).into())
             }
             t => {
                 let s = *ctr;
@@ -468,13 +503,21 @@ fn show_toks(ts: &[Sp]) -> String {
         .map(|(t, s)| match t {
             Tok::A => format!("A@{}..{}", s.start, s.end),
             Tok::B => format!("B@{}..{}", s.start, s.end),
-            Tok::G(i, e) => format!("G@{}..{}[{} eoi@{}]", s.start, s.end, show_toks(i), e.start),
+            Tok::G(i, e) => format!("G@{}..{}[{} eoi@{}..{}]", s.start, s.end, show_toks(i), e.start, e.end),
         })
         .collect::<Vec<_>>()
         .join(" ")
 }
 
+/// mismatch categories of this engine; a property alarms on its own projection
+pub const CATS: [&str; 6] = ["output", "emissions", "primary_error", "emissions_before_failure", "check_vs_parse", "panic"];
+
 pub fn run_unit(name: &str, n: usize, m: usize, depth: usize, cx: &ShardCtx, only: Option<(&str, &str)>) -> UnitResult {
+    run_unit_for(name, n, m, depth, cx, only, &CATS, false)
+}
+
+#[allow(clippy::too_many_arguments)]
+pub fn run_unit_for(name: &str, n: usize, m: usize, depth: usize, cx: &ShardCtx, only: Option<(&str, &str)>, alarm: &[&str], recover_only: bool) -> UnitResult {
     let mut r = UnitResult { name: name.to_string(), exhaustive: true, ..Default::default() };
     // inputs first (they must outlive the parsers)
     let mut inputs: Vec<(Vec<Sp>, SimpleSpan)> = vec![];
@@ -482,7 +525,7 @@ pub fn run_unit(name: &str, n: usize, m: usize, depth: usize, cx: &ShardCtx, onl
         for t in trees(k, depth) {
             let mut c = 1usize;
             let v = assign(t, &mut c);
-            inputs.push((v, (c + 1..c + 1).into()));
+            inputs.push((v, (c..c + 1).into()));
         }
     }
     let maxdepth = inputs.iter().map(|(t, _)| depth_of(t)).max().unwrap_or(0);
@@ -496,6 +539,9 @@ pub fn run_unit(name: &str, n: usize, m: usize, depth: usize, cx: &ShardCtx, onl
             continue;
         }
         let gname = format!("{g:?}");
+        if recover_only && !(gname.contains("Recover") && gname.contains("Nested")) {
+            continue;
+        }
         if let Some((og, _)) = only {
             if og != gname {
                 continue;
@@ -531,6 +577,7 @@ pub fn run_unit(name: &str, n: usize, m: usize, depth: usize, cx: &ShardCtx, onl
             *r.counters.entry("nested_parses".into()).or_default() += w.nested_runs;
             *r.counters.entry("inner_failures_surfaced".into()).or_default() += w.inner_failures_surfaced;
             *r.counters.entry("inner_emissions_surfaced".into()).or_default() += w.inner_emissions_surfaced;
+            *r.counters.entry("recoveries".into()).or_default() += w.recoveries;
             if has_nested {
                 *r.counters.entry(if res.is_some() { "accepted_through_a_nested_parse" } else { "rejected_with_a_nested_grammar" }.into()).or_default() += 1;
             }
@@ -555,26 +602,36 @@ pub fn run_unit(name: &str, n: usize, m: usize, depth: usize, cx: &ShardCtx, onl
                 }
             }
             let bad = match got {
-                Err(e) => Some(format!("panic: {}", cvh::e1::panic_msg(e))),
+                Err(e) => Some(("panic", format!("panic: {}", cvh::e1::panic_msg(e)))),
                 Ok((o, got, chk_ok)) => {
                     // on a failed parse that went through a backtracking construct only the last (primary)
                     // error is specified; backtracking-free grammars never rewind, so there the whole list is
                     let (gc, wc) = if res.is_none() && !straight && !got.is_empty() { (got[got.len() - 1..].to_vec(), want[want.len() - 1..].to_vec()) } else { (got.clone(), want.clone()) };
                     if o != res {
-                        Some(format!("output {:?}, model {:?}", o, res))
+                        Some(("output", format!("output {:?}, model {:?}", o, res)))
                     } else if gc != wc {
-                        Some(format!("errors {:?}, model {:?}", got, want))
+                        let cat = if res.is_some() {
+                            "emissions"
+                        } else if gc.last() != wc.last() {
+                            "primary_error"
+                        } else {
+                            "emissions_before_failure"
+                        };
+                        Some((cat, format!("errors {:?}, model {:?}", got, want)))
                     } else if !chk_ok {
-                        Some("check() disagrees with parse()".into())
+                        Some(("check_vs_parse", "check() disagrees with parse()".into()))
                     } else {
                         None
                     }
                 }
             };
-            if let Some(why) = bad {
-                r.mismatch_count += 1;
-                if r.mismatches.len() < 20 {
-                    r.mismatches.push(json!({"engine": "nested", "unit": name, "grammar": gname, "input": iname, "categories": ["nested_input"], "detail": why, "explained_by": []}));
+            if let Some((cat, why)) = bad {
+                *r.counters.entry(format!("mismatch:{cat}")).or_default() += 1;
+                if alarm.contains(&cat) {
+                    r.mismatch_count += 1;
+                    if r.mismatches.len() < 20 {
+                        r.mismatches.push(json!({"engine": "nested", "unit": name, "grammar": gname, "input": iname, "categories": [cat], "detail": why, "explained_by": []}));
+                    }
                 }
             }
             if r.samples.len() < 5 && has_nested && res.is_some() && toks.len() >= 2 {
@@ -584,17 +641,30 @@ pub fn run_unit(name: &str, n: usize, m: usize, depth: usize, cx: &ShardCtx, onl
     }
     r.distinct_outcomes = distinct.len() as u64;
     r.desc = format!(
-        "nested inputs: {} grammars (<= {} nodes over just/any/end/empty/then/or/or_not/repeated/validate/nested_in) x {} token trees (<= {} tokens, nesting depth <= {}, gapped spans): outputs with every node's span, complete error list on success (and on failure for backtracking-free grammars; last error otherwise), check() == parse()",
-        gs.len(), n, inputs.len(), m, maxdepth
+        "nested inputs: {} grammars{} (<= {} nodes over just/any/end/empty/then/or/or_not/repeated/validate/recover_with(via_parser)/nested_in) x {} token trees (<= {} tokens, nesting depth <= {}, gapped spans, non-zero-width inner end-of-input spans): outputs with every node's span, complete error list on success (and on failure for backtracking-free grammars; last error otherwise), check() == parse(); alarmed categories {:?}",
+        gs.len(), if recover_only { " (those with a recovery and a nested parse)" } else { "" }, n, inputs.len(), m, maxdepth, alarm
     );
     r
 }
 
+/// `nested-wide` / `nested-deep`, optionally with a projection suffix: `@emissions` (C05), `@primary` (C06),
+/// `@recovery` (C08: only grammars with a recovery and a nested parse; output and every error list)
+fn projection(unit: &str) -> (&str, &'static [&'static str], bool) {
+    match unit.split_once('@') {
+        None => (unit, &CATS, false),
+        Some((b, "emissions")) => (b, &["emissions", "emissions_before_failure", "panic"], false),
+        Some((b, "primary")) => (b, &["primary_error", "panic"], false),
+        Some((b, "recovery")) => (b, &["output", "emissions", "primary_error", "emissions_before_failure", "panic"], true),
+        Some((b, _)) => (b, &CATS, false),
+    }
+}
+
 pub fn run(unit: &str, tier: Tier, cx: &ShardCtx) -> UnitResult {
     let q = tier == Tier::Quick;
-    match unit {
-        "nested-wide" => run_unit(unit, if q { 5 } else { 6 }, if q { 5 } else { 6 }, 2, cx, None),
-        "nested-deep" => run_unit(unit, if q { 4 } else { 5 }, if q { 5 } else { 6 }, 4, cx, None),
+    let (base, alarm, rec) = projection(unit);
+    match base {
+        "nested-wide" => run_unit_for(unit, if q { 5 } else { 6 }, if q { 5 } else { 6 }, 2, cx, None, alarm, rec),
+        "nested-deep" => run_unit_for(unit, if q { 4 } else { 5 }, if q { 5 } else { 6 }, 4, cx, None, alarm, rec),
         _ => panic!("unknown unit {unit}"),
     }
 }
@@ -606,7 +676,7 @@ pub fn replay(v: &Value) -> Result<Option<String>, String> {
     let progress = |_: usize| {};
     let cx = ShardCtx { shard: 0, nshards: 1, known: cvm::sem::Sw::NONE, skip: vec![], progress: &progress };
     let only = Some((v["grammar"].as_str().unwrap_or(""), v["input"].as_str().unwrap_or("")));
-    let r = match unit.as_str() {
+    let r = match projection(&unit).0 {
         "nested-deep" => run_unit(&unit, if q { 4 } else { 5 }, if q { 5 } else { 6 }, 4, &cx, only),
         _ => run_unit(&unit, if q { 5 } else { 6 }, if q { 5 } else { 6 }, 2, &cx, only),
     };
